@@ -948,6 +948,35 @@ func TestPropPartition(t *testing.T) {
 		if viaNode {
 			src = &node
 		}
+		// what an unmarshal does must not depend on the calls that came before it: one case in four is
+		// preceded by a call that FAILS half way (keys of this document's names taken by fields, then an
+		// ill-typed value), one in four by a call that succeeds on another type - neither may leave a trace
+		switch rapid.IntRange(0, 3).Draw(t, "before") {
+		case 0:
+			var rejected struct {
+				ZZ   any `yaml:"zz"`
+				U1   any `yaml:"u1"`
+				U2   any `yaml:"u2"`
+				Rest any `yaml:"rest"`
+				F0   any `yaml:"f0"`
+				Bad  int `yaml:"bad"`
+			}
+			perr := ordered.Unmarshal(ordered.MapFromItems(
+				ordered.TupleSA{Key: "zz", Value: 1}, ordered.TupleSA{Key: "u1", Value: 2}, ordered.TupleSA{Key: "u2", Value: 3},
+				ordered.TupleSA{Key: "rest", Value: 4}, ordered.TupleSA{Key: "f0", Value: 5}, ordered.TupleSA{Key: "bad", Value: []any{"not", "an", "int"}}), &rejected)
+			if perr == nil {
+				t.Fatalf("harness: the ill-typed preceding document was accepted")
+			}
+			rec.Class("preceded-by-a-call-that-failed-half-way")
+		case 1:
+			var other struct {
+				ZZ   string         `yaml:"zz"`
+				Rest map[string]any `yaml:",inline"`
+			}
+			if perr := ordered.Unmarshal(ordered.MapFromItems(ordered.TupleSA{Key: "zz", Value: "x"}, ordered.TupleSA{Key: "u1", Value: 2}), &other); perr != nil {
+				t.Fatalf("harness: preceding call failed: %v", perr)
+			}
+		}
 		var uerr error
 		func() {
 			defer func() {
